@@ -215,7 +215,7 @@ def run(chk):
             module="LCReplay", workers=1)
         if not quick:
             job("MC2 exhaustive: 2 replicas, 2 writers x 2 sections, drop 1, duplicate 1", "MC2")
-            job("MC3Faults exhaustive: 3 replicas, drop 1, duplicate 1", "MC3Faults", timeout=3000)
+            job("MC3Faults exhaustive: 3 replicas, 2 writers x 1 section + solo phase, drop 1, duplicate 1", "MC3Faults", timeout=5400)
             job("MC3Live: every fair behaviour comes to rest (no livelock in the design)", "MC3Live", workers=2, timeout=3000)
             job("MC3PinnedLocal (expected: OneWinnerPerVersion violated without the filter)", "MC3PinnedLocal",
                 expect="OneWinnerPerVersion")
@@ -225,10 +225,10 @@ def run(chk):
 
     # vacuity guards that also produce the schedules replayed on the code, and the simulation runs that
     # export schedules of the repaired protocol (invariants checked on every state on the way); all in parallel
-    sims = [("MC3Sim", 3, [1, 2], 16 if quick else 120), ("MC4Sim", 4, [1, 2, 3], 8 if quick else 60),
-            ("MC5Sim", 5, [1, 2, 3], 6 if quick else 50)]
+    sims = [("MC3Sim", 3, [1, 2], 16 if quick else 80), ("MC4Sim", 4, [1, 2, 3], 8 if quick else 40),
+            ("MC5Sim", 5, [1, 2, 3], 6 if quick else 30)]
     if not quick:
-        sims.append(("MC7Sim", 7, [1, 2, 3, 4], 30))
+        sims.append(("MC7Sim", 7, [1, 2, 3, 4], 20))
     pre = {}
 
     def prejob(key, module, cfg, **kw):
@@ -289,8 +289,8 @@ def run(chk):
             for name, n, writers, acts in scripts:
                 cases.append(script_case(name, n, writers, acts, tr, seed))
             plan = [(2, [1, 2], 6), (3, [1, 2], 10), (3, [1, 2, 3], 8), (4, [1, 2, 3], 8), (5, [1, 2, 3], 6)] if quick else \
-                   [(2, [1, 2], 30), (3, [1, 2], 50), (3, [1, 2, 3], 40), (4, [1, 2, 3], 40), (4, [1, 2, 3, 4], 20),
-                    (5, [1, 2, 3], 30), (6, [1, 2, 3], 16), (7, [1, 2, 3, 4], 16)]
+                   [(2, [1, 2], 20), (3, [1, 2], 30), (3, [1, 2, 3], 30), (4, [1, 2, 3], 30), (4, [1, 2, 3, 4], 16),
+                    (5, [1, 2, 3], 20), (6, [1, 2, 3], 12), (7, [1, 2, 3, 4], 12)]
             for n, writers, cnt in plan:
                 for i in range(cnt):
                     s = seed * 100003 + n * 1009 + len(writers) * 101 + i
